@@ -281,6 +281,7 @@ func genC17(seed uint64, tier Tier) *Case {
 		c.Oracles.IDsOnly = true
 	}
 	c.Oracles.NoErrors = true
+	g.nested = g.r.Bool(0.35)
 	c.Steps = append(c.Steps, Step{Kind: "start"})
 	var delivered []Op
 	redeliver := func() Op {
